@@ -8,6 +8,18 @@ NOTES = ("Driver: /verif/verif (python3, stdlib). Every check rebuilds harness/c
          "Known findings: /verif/KNOWN_FINDINGS.txt (read-only at run time). VERIF_SEED selects the rapid seeds; sweeps ignore it.")
 
 CLAIMED = {
+ "C15": dict(
+    technique="exhaustive enumeration (all registered names x mask x spelling; header words, all 2^32 in thorough) + rapid lookup/mutate/lookup histories against an independent width table + race detector on concurrent lookups",
+    level_text="Every registered name (obtained through the verif hook) x mask on/off x three spellings is compared with a width table transcribed from OF1.3.5 and OVS meta-flow.h; pack/unpack of header words is enumerated (16 classes x 2^16 + all classes x 10 low halves in quick, all 2^32 words in thorough); independence of results is checked by generated lookup/modify/lookup histories, by the stored registry entries afterwards, and concurrently under -race.",
+    level_note="Trusts my transcription of the width table (DESIGN.md Appendix A.3); concurrency is sampled (Go scheduler not controllable), the race detector flags unsynchronised access on any executed schedule."),
+ "C17": dict(
+    technique="property-based testing (rapid) + exhaustive enumeration of all 528 windows of every 32-bit register, against a math/big reference model of the documented calling conventions",
+    level_text="All 528 windows x 16 registers x 5 boundary values x 3 conventions are enumerated; windows, values, Go argument types and out-of-range classes for all fixed-width fields (1..16 bytes) are generated; value/mask placement, sizes, header, register equivalence with NewRegMatchField, error-not-panic on unrepresentable input and argument immutability are judged by the model.",
+    level_note="Trusts the math/big model (nmfModel in c17_test.go) and the independent width table; the offset-only form is judged by the builder's doc comment (window as wide as the data)."),
+ "C19": dict(
+    technique="model-based testing (rapid): histories of typed writes read back flat or through nested slice decoders against a byte-slice cursor model; exhaustive sweeps of alignment and short-header cases",
+    level_text="Generated write histories are compared byte-for-byte with a cursor model, then read back through arbitrarily nested SliceDecoder windows with value, advance, base offset and absolute alignment checked after every step; SkipAlign is enumerated over base 0..56 x offset 0..40, Encoder.SkipAlign over lengths 0..64, Header.Decode over every start offset 0..8 x remaining length 0..16.",
+    level_note="Trusts the cursor model and my reading of SliceDecoder(length, rewind) from its loxigen origin."),
  "C01": dict(
     technique="property-based testing (rapid): API build programs for every controller-originated kind, framing oracle (version/type/header length == bytes == Len()) plus independent wire-model size",
     level_text="Generated build programs over all 17 controller-originated message kinds, every command variant, nested lists up to the 64 KiB frame limit; each encoding is judged against version 4, the kind's type code, header length == bytes produced == Len() before and after encoding. Sampling, not proof: absence of violations is not shown.",
@@ -37,4 +49,4 @@ for k in CLAIMED:
     ENGINES[0]["serves_properties"].append(k)
 
 NOT_APPLICABLE = {p: "check under construction in this round (design in DESIGN.md section 10); not claimed until it runs clean on the unchanged tree"
-                  for p in ["C05","C06","C07","C08","C09","C10","C11","C12","C13","C14","C15","C17","C19"]}
+                  for p in ["C05","C06","C07","C08","C09","C10","C11","C12","C13","C14"]}
